@@ -104,6 +104,8 @@ def random_scenario(rng: random.Random, nsims=(2, 4), nconns=(1, 5), until=(2, 4
         # same attribute names the opposite roles
         if x["type"] == "hybrid" and rng.random() < 0.15 and not x.get("any_inputs") and not x.get("meta"):
             x["children"] = "swapped_parent"
+    if rng.random() < 0.2:
+        scn["world_positional"] = True  # World(...) constructed with positional arguments (see drive.build_world)
     if rng.random() < 0.12:
         scn["query_before_run"] = True  # World.get_data() on the sources before run() (see drive.execute)
     if any(x["gpath"] for x in scn["sims"]) and rng.random() < 0.2:
